@@ -58,7 +58,7 @@ var vpProbeMu sync.Mutex
 
 func vpH_tv_stdlib() {
 	s := vpStrUpTo(3, "a/# ")
-	switch vpInt(0, 60) {
+	switch vpInt(0, 61) {
 	case 0:
 		vpAssert(strings.Count(s, "/") == vpCountByte(s, '/'), "strings.Count")
 	case 1:
@@ -246,6 +246,9 @@ func vpH_tv_stdlib() {
 	case 60:
 		r := []rune("\u00e9\u00e9\u00e9") // 3 characters: 12 bytes of storage, rounded up to a size class of 16 bytes
 		vpAssert(len(r) == 3 && cap(r) >= 3 && cap(r) <= 8 && len(r[:cap(r)]) == cap(r), "[]rune(string): slicing up to the capacity is legal")
+	case 61:
+		i := strings.IndexAny(s, "/#")
+		vpAssert(strings.ContainsAny(s, "/#") == (vpCountByte(s, '/')+vpCountByte(s, '#') > 0) && (i >= 0) == strings.ContainsAny(s, "/#") && (i < 0 || (s[i] == '/' || s[i] == '#') && !strings.ContainsAny(s[:i], "/#")), "strings.ContainsAny / IndexAny")
 	case 58:
 		vpAssert(strconv.FormatInt(-42, 10) == "-42" && strconv.FormatInt(255, 16) == "ff" && strconv.Itoa(1000) == "1000", "strconv.FormatInt")
 	case 33:
